@@ -134,7 +134,7 @@ def repo_gen_results(fdir=None, log=None):
     if os.path.exists(path) and not os.environ.get("VERIF_NO_CACHE"):
         with open(path, "rb") as f:
             return pickle.load(f)
-    with facts.Lock("analysis.lock"):
+    with facts.Lock("analysis-%s.lock" % os.path.basename(os.path.dirname(fdir))):
         if os.path.exists(path) and not os.environ.get("VERIF_NO_CACHE"):
             with open(path, "rb") as f:
                 return pickle.load(f)
